@@ -9,6 +9,7 @@ SPEC = {
     "assumptions": [
         "a call is modelled by the return path it takes: (result, effect on the calling thread's slot) as extracted syntactically from capi/src by gen_capi.py (last _yrx_set_last_error executed on the path, helper functions expanded); what the wrapped yara_x call does is outside the model and covered by the parity comparison",
         "callbacks passed to the API do not change the last-error slot behind the enclosing call's back (the harness records as events only calls whose callbacks do not re-enter the API)",
+        "the unit of yrx_scanner_set_timeout is checked as a generated fact only (Duration constructor in the wrapper vs the unit stated in the header comment): the configured duration cannot be read back through the C API and a wall-clock comparison would be slow and flaky",
         "which codes carry detail (SYNTAX_ERROR, VARIABLE_ERROR, SCAN_ERROR, SCAN_TIMEOUT, INVALID_UTF8, SERIALIZATION_ERROR) is read from the header comments; INVALID_ARGUMENT / INVALID_STATE / NO_METADATA / NOT_SUPPORTED are self-describing",
         "thread-locality of the slot is taken from the `thread_local!` declaration (generated last_error_storage) and validated by two-thread runs",
         "module outputs cannot be read back through the C API; parity of module data is checked through rule verdicts after yrx_scanner_set_module_output",
